@@ -58,6 +58,14 @@ def findings(prog, fi: FuncInfo):
                 what = _is_single_pass(prog, fi.module, d.value)
                 if what:
                     cands.append((d.name, n, what))
+    # a parameter declared `Iterable[...]` / `Iterator[...]` / `Generator[...]`: the signature itself says callers may hand in a
+    # one-shot object; treated like a definition at function entry
+    a_ = fn.args
+    for arg in a_.posonlyargs + a_.args + a_.kwonlyargs:
+        ann = ast.unparse(arg.annotation) if arg.annotation is not None else ""
+        head = ann.replace("typing.", "").replace("collections.abc.", "").replace("abc.", "").split("[")[0].split("|")[0].strip()
+        if head in ("Iterable", "Iterator", "Generator"):
+            cands.append((arg.arg, g.entry, f"a parameter declared `{ann}` (may be a one-shot iterator)"))
     # inner `for` clause of a comprehension: evaluated afresh for every item of the outer clause, so a single-pass
     # iterable there is exhausted after the first outer item — also when it is a deliberate iter(...) cursor
     cursor_defs = {}
@@ -106,6 +114,8 @@ def findings(prog, fi: FuncInfo):
                         continue
                     if isinstance(par, ast.Attribute) and par.value is x:
                         continue  # x.close() / x.send(): a method of the iterator, not a pass over it
+                    if isinstance(par, ast.FormattedValue) or (isinstance(par, ast.Call) and isinstance(par.func, ast.Name) and par.func.id in ("repr", "str", "bool", "len")):
+                        continue  # shown in a message / truth-tested: not iterated
                     uses.setdefault((x.id, n.id), []).append(x)
     for name, dn, what in cands:
         kills = defs_by_name.get(name, set())
